@@ -81,6 +81,7 @@ type Op struct {
 	Value   string `json:"value"` // attached value
 	Height  int64  `json:"height"`
 	Body    []Op   `json:"body"`
+	Alt     []Op   `json:"alt"` // second entry point of the contract of a call node (entered by a "recall")
 	OK      *bool  `json:"ok,omitempty"` // filled in after execution where observable
 }
 
@@ -132,19 +133,31 @@ func (a *asm) assemble() []byte {
 
 // EvmWorld resolves symbolic names of a call-tree scenario.
 type EvmWorld struct {
-	N     *Node
-	Roles map[string]Key // S, T, W, ...
+	N       *Node
+	Roles   map[string]Key // S, T, W, ...
+	Created common.Address // address of the contract created by a top-level "create" (N0)
 }
 
 func (w *EvmWorld) contractAddr(id int) common.Address {
 	return ethAddr(DetKey(w.N.W.Cfg.Seed, fmt.Sprintf("C%d", id)))
 }
 
+// recorderAddr is the contract in which every frame records the success flags of its calls
+// (so that recording does not touch the state of the recording contract itself).
+func (w *EvmWorld) recorderAddr() common.Address { return ethAddr(DetKey(w.N.W.Cfg.Seed, "R")) }
+
+// recorderCode: SSTORE(calldata[0:32], calldata[32:64])
+var recorderCode = []byte{0x60, 0x20, 0x35, 0x60, 0x00, 0x35, 0x55, 0x00}
+
 // addrOf resolves a name in the frame executed by `self`.
 func (w *EvmWorld) addrOf(name string, self common.Address) common.Address {
 	switch {
 	case name == "self":
 		return self
+	case name == "R":
+		return w.recorderAddr()
+	case name == "N0":
+		return w.Created
 	case strings.HasPrefix(name, "C"):
 		var id int
 		fmt.Sscanf(name, "C%d", &id)
@@ -186,6 +199,10 @@ func (w *EvmWorld) pcCalldata(o Op, self common.Address) (common.Address, []byte
 	case "revoke":
 		bz, err := stakingABI.Pack("revoke", w.addrOf(o.Grantee, self), []string{stakingprecompile.DelegateMsg, stakingprecompile.UndelegateMsg})
 		return stakingPC, bz, err
+	case "query":
+		// a read-only method: the precompile still flushes the StateDB before answering
+		bz, err := stakingABI.Pack("delegation", who, w.valStr(o.Val))
+		return stakingPC, bz, err
 	case "withdrawRewards":
 		bz, err := distrABI.Pack("withdrawDelegatorRewards", who, w.valStr(o.Val))
 		return distrPC, bz, err
@@ -202,12 +219,13 @@ func (w *EvmWorld) pcCalldata(o Op, self common.Address) (common.Address, []byte
 	return common.Address{}, nil, fmt.Errorf("unknown precompile method %q", o.M)
 }
 
-// compileBody compiles the ops executed by contract `self`; nested call nodes are compiled
-// recursively into `out`.
-func (w *EvmWorld) compileBody(self common.Address, body []Op, out map[common.Address][]byte) error {
+// compileBody compiles the ops executed by contract `self` (main entry: empty calldata; alt entry:
+// any calldata); nested call nodes are compiled recursively into `out`.
+func (w *EvmWorld) compileBody(self common.Address, body, alt []Op, out map[common.Address][]byte) error {
 	a := newAsm()
-	emitCall := func(o Op, target common.Address, data []byte, value *big.Int, gasCap int) {
-		n := 0
+	rec := w.recorderAddr()
+	emitCall := func(o Op, target common.Address, data []byte, argLen int, value *big.Int, gasCap int) {
+		n := argLen
 		if len(data) > 0 {
 			a.push2(len(data))
 			a.pushData(data)
@@ -229,12 +247,24 @@ func (w *EvmWorld) compileBody(self common.Address, body []Op, out map[common.Ad
 			a.op(0x5a) // GAS
 		}
 		a.op(0xf1) // CALL
-		// record success + 1 in slot id
+		// record success + 1 under the op id in the recorder contract
 		a.op(0x80) // DUP1
 		a.push1(1)
 		a.op(0x01) // ADD
+		a.push1(0x20)
+		a.op(0x52) // MSTORE(0x20, flag+1)
 		a.push2(o.ID)
-		a.op(0x55) // SSTORE
+		a.push1(0)
+		a.op(0x52) // MSTORE(0, id)
+		a.push1(0)
+		a.push1(0)
+		a.push1(0x40)
+		a.push1(0)
+		a.push1(0)
+		a.push20(rec)
+		a.op(0x62, 0x01, 0x86, 0xa0) // PUSH3 100000
+		a.op(0xf1)
+		a.op(0x50) // POP
 		if o.Mode == "bubble" {
 			a.op(0x15) // ISZERO
 			a.pushLabel("rev")
@@ -243,46 +273,68 @@ func (w *EvmWorld) compileBody(self common.Address, body []Op, out map[common.Ad
 			a.op(0x50) // POP
 		}
 	}
-	for _, o := range body {
-		value := new(big.Int)
-		if o.Value != "" {
-			value = mustBig(o.Value)
-		}
-		switch o.Op {
-		case "pc":
-			target, data, err := w.pcCalldata(o, self)
-			if err != nil {
-				return err
+	emitOps := func(ops []Op) error {
+		for _, o := range ops {
+			value := new(big.Int)
+			if o.Value != "" {
+				value = mustBig(o.Value)
 			}
-			emitCall(o, target, data, value, 3_000_000)
-		case "call":
-			var target common.Address
-			if len(o.Body) > 0 {
-				target = w.contractAddr(o.ID)
-				if err := w.compileBody(target, o.Body, out); err != nil {
+			switch o.Op {
+			case "pc":
+				target, data, err := w.pcCalldata(o, self)
+				if err != nil {
 					return err
 				}
-			} else {
-				target = w.addrOf(o.To, self)
+				emitCall(o, target, data, 0, value, 3_000_000)
+			case "call":
+				var target common.Address
+				if len(o.Body) > 0 {
+					target = w.contractAddr(o.ID)
+					if err := w.compileBody(target, o.Body, o.Alt, out); err != nil {
+						return err
+					}
+				} else {
+					target = w.addrOf(o.To, self)
+				}
+				emitCall(o, target, nil, 0, value, 0)
+			case "recall":
+				// re-enter an existing contract of the tree through its alt entry point
+				emitCall(o, w.addrOf(o.To, self), nil, 1, value, 0)
+			case "sstore":
+				a.push1(7)
+				a.push2(o.ID)
+				a.op(0x55)
+			case "selfdestruct":
+				a.push20(w.addrOf(o.To, self))
+				a.op(0xff)
+			case "revert":
+				a.push1(0)
+				a.push1(0)
+				a.op(0xfd)
+			case "invalid":
+				a.op(0xfe)
+			case "stop":
+				a.op(0x00)
+			default:
+				return fmt.Errorf("unknown op %q", o.Op)
 			}
-			emitCall(o, target, nil, value, 0)
-		case "sstore":
-			a.push1(7)
-			a.push2(o.ID)
-			a.op(0x55)
-		case "revert":
-			a.push1(0)
-			a.push1(0)
-			a.op(0xfd)
-		case "invalid":
-			a.op(0xfe)
-		case "stop":
-			a.op(0x00)
-		default:
-			return fmt.Errorf("unknown op %q", o.Op)
 		}
+		a.op(0x00) // STOP
+		return nil
 	}
-	a.op(0x00) // STOP
+	if len(alt) > 0 {
+		a.op(0x36) // CALLDATASIZE
+		a.op(0x15) // ISZERO
+		a.pushLabel("main")
+		a.op(0x57) // JUMPI
+		if err := emitOps(alt); err != nil {
+			return err
+		}
+		a.label("main")
+	}
+	if err := emitOps(body); err != nil {
+		return err
+	}
 	a.label("rev")
 	a.push1(0)
 	a.push1(0)
@@ -311,7 +363,17 @@ func opFrames(self string, body []Op, out map[int]string) {
 		out[o.ID] = self
 		if o.Op == "call" && len(o.Body) > 0 {
 			opFrames(fmt.Sprintf("C%d", o.ID), o.Body, out)
+			opFrames(fmt.Sprintf("C%d", o.ID), o.Alt, out)
 		}
+	}
+}
+
+// opKinds maps op id -> op kind for a whole tree.
+func opKinds(ops []Op, out map[int]string) {
+	for _, o := range ops {
+		out[o.ID] = o.Op
+		opKinds(o.Body, out)
+		opKinds(o.Alt, out)
 	}
 }
 
@@ -347,6 +409,7 @@ func normOp(o Op) Op {
 		o.M = "-"
 	}
 	o.Body = normOps(o.Body)
+	o.Alt = normOps(o.Alt)
 	o.OK = nil
 	return o
 }
